@@ -8,7 +8,11 @@
   (`C16_linesearch_*`, `C16_apgm_point_*`) hold for every scalar type, `Float` included.
 -/
 import Scico.Proofs.StepSizeEnv
+import Scico.Proofs.StepSizeRobust
+import Scico.Proofs.StepSizeHist
 import Mathlib.Analysis.InnerProductSpace.Basic
+import Mathlib.Analysis.InnerProductSpace.PiL2
+import Mathlib.Analysis.Complex.Basic
 
 set_option linter.unusedSectionVars false
 
@@ -280,6 +284,105 @@ theorem C16_apgm_point_robust (env : Env V S) (γd γu : S) (m : Nat) (s s' : PG
       exact ⟨hu, hz, rfl, rfl⟩
 
 end search
+
+/-! ## round 2: complex data, whole call histories, the robust search's auxiliary sequences -/
+
+section complex
+open ComplexConjugate
+
+noncomputable local instance : HasSqrt ℝ := ⟨Real.sqrt⟩
+
+theorem C16_bb_ratio_complex {n : Nat} (f : EuclideanSpace ℂ (Fin n) → ℝ)
+    (grad : EuclideanSpace ℂ (Fin n) → EuclideanSpace ℂ (Fin n))
+    (prox : EuclideanSpace ℂ (Fin n) → XR ℝ → EuclideanSpace ℂ (Fin n))
+    (smul : XR ℝ → EuclideanSpace ℂ (Fin n) → EuclideanSpace ℂ (Fin n))
+    (x v xp : EuclideanSpace ℂ (Fin n)) (L : XR ℝ) (ps : PolState (EuclideanSpace ℂ (Fin n)) (XR ℝ))
+    (hprev : ps.prev = some (xp, grad xp)) [Decidable (0 < (∑ i, conj ((v - xp) i) * (grad v - grad xp) i).re ∧ grad v - grad xp ≠ 0)] :
+    update (envOfSpace f grad prox smul) .bb x L ps v =
+      some (if 0 < (∑ i, conj ((v - xp) i) * (grad v - grad xp) i).re ∧ grad v - grad xp ≠ 0
+              then fin ((∑ i, ‖(grad v - grad xp) i‖ ^ 2) / (∑ i, conj ((v - xp) i) * (grad v - grad xp) i).re) else L,
+            { ps with prev := some (v, grad v) }) := by
+  have hin : ∀ a b : EuclideanSpace ℂ (Fin n), inner ℝ a b = (∑ i, conj (a i) * b i).re := by
+    intro a b
+    rw [PiLp.inner_apply, Complex.re_sum]
+    apply Finset.sum_congr rfl
+    intro i _
+    rw [Complex.inner, mul_comm]
+  rw [C16_bb_ratio_inner f grad prox smul x v xp L ps hprev, hin, EuclideanSpace.norm_sq_eq]
+  congr 2
+  split <;> rfl
+
+end complex
+
+/-! ### adaptive BB along a whole call history of the policy object -/
+
+section history
+variable {K : Type} [Field K] [LinearOrder K] [IsStrictOrderedRing K] [HasSqrt K] {V : Type}
+
+/-- `AdaptiveBBStepSize`: after the calls `update(v₀), update(v₁), …, update(vₙ)` of a fresh policy object — for any
+    problem (`Env`), any `κ`, whatever `pgm.L` was at each call — every call completes and the object's memory
+    `(Lbb1prev, Lbb2prev)` holds the most recent usable value of `⟨Δx,Δg⟩/⟨Δx,Δx⟩` resp. `⟨Δg,Δg⟩/⟨Δx,Δg⟩` over the
+    consecutive pairs of call points (`none` if no pair ever gave a usable one). -/
+theorem C16_adaptive_bb_history (env : Env V (XR K)) (κ : XR K) (x v0 : V) (L0 : XR K) (calls : List (V × XR K)) :
+    ∃ ps', runCalls env (.abb κ) x PolState.init ((v0, L0) :: calls) = some ps' ∧
+      ps'.l1 = lastUsable ((ipsAlong env v0 calls).map fun c => c.2.1 / c.1) ∧
+      ps'.l2 = lastUsable ((ipsAlong env v0 calls).map fun c => c.2.2 / c.2.1) := by
+  obtain ⟨ps', h1, h2⟩ := runCalls_abb_init env κ x v0 L0 calls
+  rw [C16_adaptive_bb_memory] at h2
+  exact ⟨ps', h1, (Prod.mk.inj h2).1, (Prod.mk.inj h2).2⟩
+
+end history
+
+/-! ### the auxiliary sequences of the robust line search (Florea–Vorobyov estimate sequence) -/
+
+section robust
+variable {V : Type}
+
+/-- One trial of the robust search with the value `L > 0` and `T_k ≥ 0` (exact arithmetic): the step
+    `t = (1+√(1+4LT_k))/(2L)` is at least `1/L`, satisfies the estimate-sequence identity `L·t² = T_k + t = T`, and the
+    weights `T_k/T`, `t/T` of the auxiliary point `y = (T_k·x + t·Zrb)/T` are non-negative and sum to one. -/
+theorem C16_robust_trial (env : Env V ℝ) (x Zrb : V) (Tk L : ℝ) (hL : 0 < L) (hT : 0 ≤ Tk) :
+    let r := rlsTrial env x Tk Zrb L
+    1 / L ≤ r.1 ∧ r.2.1 = Tk + r.1 ∧ L * r.1 ^ 2 = r.2.1 ∧ 0 ≤ Tk / r.2.1 ∧ 0 < r.1 / r.2.1 ∧ Tk / r.2.1 + r.1 / r.2.1 = 1 := by
+  intro r
+  obtain ⟨h1, h2⟩ := rlsTrial_fst env x Tk Zrb L
+  obtain ⟨a, b, c, d⟩ := rlsT_spec Tk L hL hT
+  have hr1 : r.1 = rlsT Tk L := h1
+  have hr2 : r.2.1 = Tk + rlsT Tk L := h2
+  have hpos : 0 < Tk + rlsT Tk L := by linarith
+  rw [hr1, hr2]
+  refine ⟨a, rfl, c, div_nonneg hT (le_of_lt hpos), div_pos b hpos, ?_⟩
+  rw [← add_div, div_self (ne_of_gt hpos)]
+
+open Classical in
+/-- **Invariant along every accelerated-PGM run with the robust line search** (any problem, any `γ_d, γ_u > 0`, any
+    budget, any number of steps, `L₀ > 0`): `L > 0` and `T_k ≥ 0` hold after every step, and each further step
+    produces `L_{k+1} > 0`, `T_{k+1} > T_k` with `L_{k+1}·(T_{k+1} − T_k)² = T_{k+1}` — the identity of the
+    Florea–Vorobyov estimate sequence, for the `L` that is *returned* (with which the handed-back candidate and the
+    update of `Zrb` are computed, `C16_linesearch_robust`). -/
+theorem C16_robust_estimate_sequence (env : Env V ℝ) (γd γu : ℝ) (m : Nat) (hγd : 0 < γd) (hγu : 0 < γu)
+    (x0 : V) (L0 inf : ℝ) (hL0 : 0 < L0) (k : Nat) (s s' : PGMState V ℝ)
+    (h : iterate (apgmStep env (.rls γd γu m)) k (PGMState.init x0 L0 inf) = some s)
+    (h' : apgmStep env (.rls γd γu m) s = some s') :
+    0 < s.L ∧ 0 ≤ s.ps.Tk ∧ 0 < s'.L ∧ s.ps.Tk < s'.ps.Tk ∧ s'.L * (s'.ps.Tk - s.ps.Tk) ^ 2 = s'.ps.Tk := by
+  have hinv : 0 < s.L ∧ 0 ≤ s.ps.Tk := by
+    refine iterate_pred (apgmStep env (.rls γd γu m)) (fun s => 0 < s.L ∧ 0 ≤ s.ps.Tk) ?_ k _ s ?_ h
+    · intro s1 s2 hs hstep
+      obtain ⟨a, b, _⟩ := apgmStep_rls_seq env γd γu m hγd hγu s1 s2 hs.1 hs.2 hstep
+      exact ⟨a, le_trans hs.2 (le_of_lt b)⟩
+    · exact ⟨hL0, le_refl (0 : ℝ)⟩
+  obtain ⟨a, b, c⟩ := apgmStep_rls_seq env γd γu m hγd hγu s s' hinv.1 hinv.2 h'
+  exact ⟨hinv.1, hinv.2, a, b, c⟩
+
+-- non-vacuity: T_k = 2, L = 1: t = (1+√9)/2 = 2, T = 4 = L·t²
+example : rlsT 2 1 = 2 := by
+  unfold rlsT
+  have : Real.sqrt (1 + 4 * 1 * 2) = 3 := by
+    rw [show (1 + 4 * 1 * 2 : ℝ) = 3 ^ 2 by norm_num]; exact Real.sqrt_sq (by norm_num)
+  rw [this]; norm_num
+
+end robust
+
 
 /-! ### non-vacuity: concrete instances over `ℚ` -/
 
